@@ -5,6 +5,7 @@ pub mod c04;
 pub mod c05;
 pub mod c07;
 pub mod c08;
+pub mod c09;
 
 pub fn run(prop: &str, tier: &str) -> i32 {
     match prop {
@@ -15,6 +16,7 @@ pub fn run(prop: &str, tier: &str) -> i32 {
         "C05" => c05::run(tier),
         "C07" => c07::run(tier),
         "C08" => c08::run(tier),
+        "C09" => c09::run(tier),
         _ => {
             eprintln!("unknown property {}", prop);
             3
